@@ -1,14 +1,11 @@
+import json, os, sys
+sys.path.insert(0, os.path.dirname(os.path.abspath(__file__)))
+from props_config import PROPS
 HOOK_COMMITS = []
 ALL = ["C%02d" % i for i in range(1, 21)]
-TEXT = {
- "C06": dict(design_ref="DESIGN.md §3 C06",
-   text="Generated-input search: thousands of byte strings per run from ten LZHUF-relevant families (incl. window/look-ahead boundary shapes and >32 KiB inputs that reach the adaptive-tree rebuild) are compressed under generated Write partitions and decompressed under generated Read schedules; round trip, Close()==nil and chunking-independence of the compressed bytes are asserted. All strings over {a,b} up to length 12/14 and over {0,1,2} up to 8/9 are enumerated exhaustively. Evidence of absence only within what was generated.",
-   note="Trusts the Go runtime and rapid; the reference codec is used for a label only. Inputs above 256 KiB (quick) / 1 MiB (thorough) are not generated."),
- "C07": dict(design_ref="DESIGN.md §3 C07, appendix A",
-   text="Differential testing against an independently written canonical LZHUF codec (validated byte-for-byte on the five golden files): library output must be decoded to the input by the strict reference decoder and carry the LE CRC-16/XMODEM + LE size header; canonical and random-parse reference streams (every legal match length/distance incl. overlapping copies and the space-filled initial window) must be decoded by the library with Close()==nil.",
-   note="Trusted base: internal/ref/lzhuf (self-tested against golden files without involving the library). Random-parse inputs are small (brute-force parse search)."),
- "C08": dict(design_ref="DESIGN.md §3 C08",
-   text="Hostile-stream search: random bytes and structured mutations (truncation, bit flips, size/CRC header edits with and without re-computed CRC, splices, trailing garbage) of valid streams from three encoders, read with generated buffer schedules. Oracle: no panic, the read loop ends (clock-free non-termination detector), bytes yielded <= declared size, and Close()==nil only if CRC, size and the strict reference decoding all agree. Thorough adds a native coverage-guided fuzz campaign.",
-   note="Trusted base: internal/ref/lzhuf strict decoder as definition of 'canonical decoding'. CRC is accepted over any prefix of the data that covers the consumed bits (trailing bytes are not part of the container)."),
-}
-NOT_APPLICABLE = [{"property_id": p, "reason": "check not built yet in this revision (work in progress; every property is planned, see DESIGN.md)"} for p in ALL if p not in TEXT]
+TEXT = {p: c["manifest"] for p, c in PROPS.items()}
+_na = {}
+_f = os.path.join(os.path.dirname(os.path.abspath(__file__)), "not_applicable.json")
+if os.path.exists(_f):
+    _na = json.load(open(_f))
+NOT_APPLICABLE = [{"property_id": p, "reason": _na.get(p, "check not built yet in this revision (work in progress; every property is planned, see DESIGN.md)")} for p in ALL if p not in TEXT]
